@@ -1013,6 +1013,14 @@ fn run_rec(c: &Case) -> Obs {
         if let Err(f) = check_rewrite(&header, &lz, &block, spec.cigar.len()) {
             fs.push(f);
         }
+        // wave 9 (theorem c05_rewrite_eager_identity): the EAGERLY read record written again gives the
+        // same block
+        let size_class = if spec.cigar.len() > 65535 { "cigar>65535" } else { "plain" };
+        match write_raw(&header, &eager) {
+            Ok(b2) if b2 == block => {}
+            Ok(b2) => fs.push((format!("rewrite-eager-differs-{size_class}"), format!("{} vs {} bytes", b2.len(), block.len()))),
+            Err(e) => fs.push((format!("rewrite-eager-rejected-{size_class}"), format!("Err {:?}", e.kind()))),
+        }
         fs
     })) {
         Outcome::Done(v) => fails.extend(v),
@@ -1117,6 +1125,65 @@ fn run_dec(c: &Case) -> Obs {
                 },
             };
             Obs::ok(obs, true).with_verdict(v)
+        }
+    }
+}
+
+/// `rwz nref bodyhex`: the DIRECT re-write of a lazy record (wave 9; model NV.Bam.LazyRewrite): the body
+/// is framed, read with Reader::read_record and, when the reader accepts it, written again with
+/// Writer::write_alignment_record(header with nref references, &bam::Record).  obs = `nv` (reader
+/// refused), the written block, `Err:<kind>` or `P`
+fn run_rwz(c: &Case) -> Obs {
+    let nref: usize = c.args[0].parse().unwrap();
+    let body = c.b(1);
+    let mut block = (body.len() as u32).to_le_bytes().to_vec();
+    block.extend_from_slice(&body);
+    let lz = match guarded(std::panic::AssertUnwindSafe(|| read_raw_lazy(&block))) {
+        Outcome::Done(Ok(r)) => r,
+        Outcome::Done(Err(_)) => return Obs::ok("nv", false),
+        Outcome::Panicked(m) => return Obs::fail("Panic", "lazy-read-panic", m),
+    };
+    let header = header_with(nref);
+    match guarded(std::panic::AssertUnwindSafe(|| write_raw(&header, &lz))) {
+        Outcome::Done(Ok(b2)) => Obs::ok(bytes_obs(&b2), true),
+        Outcome::Done(Err(e)) => Obs::ok(format!("Err:{}", nv::errkind(&e)), false),
+        Outcome::Panicked(m) => Obs::ok("P", false).with_verdict(bad("rewrite-lazy-panic", m)),
+    }
+}
+
+/// `hb`: a hostile whole block given to Reader::read_record_buf and Reader::read_record; obs = the
+/// decoded record or `Err:<kind>` (model NV.Bam.Decode.decode); oracle: no panic, and the lazy read
+/// fails exactly when the eager one fails with UnexpectedEof (shared framing + validate())
+fn run_hb(c: &Case) -> Obs {
+    let block = c.b(0);
+    let header = sam::Header::default();
+    let eager = match guarded(std::panic::AssertUnwindSafe(|| read_raw_eager(&header, &block))) {
+        Outcome::Done(r) => r,
+        Outcome::Panicked(m) => return Obs::fail("Panic", "hostile-block-decode-panic", m),
+    };
+    let lazy = match guarded(std::panic::AssertUnwindSafe(|| read_raw_lazy(&block))) {
+        Outcome::Done(r) => r,
+        Outcome::Panicked(m) => return Obs::fail("Panic", "hostile-block-lazy-read-panic", m),
+    };
+    let touched: V = match &lazy {
+        Ok(lz) => match guarded(std::panic::AssertUnwindSafe(|| touch_lazy(lz))) {
+            Outcome::Done(_) => Ok(()),
+            Outcome::Panicked(m) => bad("hostile-block-lazy-accessor-panic", m),
+        },
+        Err(_) => Ok(()),
+    };
+    match eager {
+        Err(e) => {
+            let v: V = match (&lazy, e.kind()) {
+                (Ok(_), io::ErrorKind::UnexpectedEof) => bad("hostile-block-lazy-accepts-truncated", ""),
+                (Err(_), io::ErrorKind::InvalidData) => bad("hostile-block-lazy-rejects-wellformed-layout", ""),
+                _ => Ok(()),
+            };
+            Obs::ok(format!("Err:{}", nv::errkind(&e)), lazy.is_ok()).with_verdict(v.and(touched))
+        }
+        Ok(eg) => {
+            let v: V = if lazy.is_err() { bad("hostile-block-lazy-read", "eager read succeeded") } else { Ok(()) };
+            Obs::ok(short_or_digest(from_record_buf(&eg, 0).canon()), true).with_verdict(v.and(touched))
         }
     }
 }
@@ -1244,16 +1311,36 @@ fn run_sub(c: &Case) -> Obs {
             Ok(l) => l,
             Err(e) => return ("-".into(), bad("lazy-read", format!("{e}"))),
         };
-        // observation: what both halves iterate, for every probed mid <= len
+        // observation (modelled, NV.Bam.Subseq): for every probed mid and for len+1, len+2: None, or
+        // what both halves iterate, their len()/is_empty() and get(i) at probe indices, each call
+        // under its own panic guard
         let ls = lz.sequence();
         let n = ls.len();
         let mut parts = Vec::new();
-        for mid in subseq_mids(n) {
-            if mid > n {
-                continue;
+        let mut mids = subseq_mids(n);
+        mids.retain(|m| *m <= n);
+        mids.push(n + 1);
+        mids.push(n + 2);
+        fn shape<S: sam::alignment::record::Sequence>(x: &S, m: usize) -> String {
+            let probes: Vec<usize> = [0i64, 1, m as i64 - 1, m as i64, m as i64 + 1].into_iter().filter(|i| *i >= 0).map(|i| i as usize).collect();
+            let gets: Vec<String> = probes.iter().map(|i| pg(|| x.get(*i).map(|b| b.to_string()).unwrap_or_else(|| "-".into()))).collect();
+            format!("{}:{}:{}", pg(|| x.len()), pg(|| x.is_empty() as u8), gets.join("."))
+        }
+        fn pg<T: ToString>(f: impl FnOnce() -> T) -> String {
+            match guarded(std::panic::AssertUnwindSafe(f)) {
+                Outcome::Done(v) => v.to_string(),
+                Outcome::Panicked(_) => "P".to_string(),
             }
+        }
+        for mid in mids {
             if let Some((a, b)) = ls.split_at_checked(mid) {
-                parts.push(format!("{}/{}", hex(&a.iter().collect::<Vec<u8>>()), hex(&b.iter().collect::<Vec<u8>>())));
+                parts.push(format!(
+                    "{}/{}/{}/{}",
+                    hex(&a.iter().collect::<Vec<u8>>()),
+                    hex(&b.iter().collect::<Vec<u8>>()),
+                    shape(&a, mid),
+                    shape(&b, n - mid)
+                ));
             } else {
                 parts.push("None".into());
             }
@@ -1348,12 +1435,12 @@ fn run_lz(c: &Case) -> Obs {
     let id = |x: Option<io::Result<usize>>| match x {
         None => "-".to_string(),
         Some(Ok(n)) => n.to_string(),
-        Some(Err(_)) => "Err".to_string(),
+        Some(Err(e)) => format!("Err:{}", nv::errkind(&e)),
     };
     let ps = |x: Option<io::Result<Position>>| match x {
         None => "-".to_string(),
         Some(Ok(n)) => usize::from(n).to_string(),
-        Some(Err(_)) => "Err".to_string(),
+        Some(Err(e)) => format!("Err:{}", nv::errkind(&e)),
     };
     let fields: Vec<(&str, Option<String>)> = vec![
         ("name", g(|| rr().name().map(|n| hex(n)).unwrap_or_else(|| "-".into()))),
@@ -1368,7 +1455,7 @@ fn run_lz(c: &Case) -> Obs {
             "cigar",
             g(|| match rr().cigar().iter().collect::<io::Result<Vec<Op>>>() {
                 Ok(ops) => fmt_cigar_plain(&ops.iter().map(|o| (code_of(o.kind()), o.len())).collect::<Vec<_>>()),
-                Err(_) => "Err".to_string(),
+                Err(e) => format!("Err:{}", nv::errkind(&e)),
             }),
         ),
         ("seq", g(|| hex(&rr().sequence().iter().collect::<Vec<u8>>()))),
@@ -1401,21 +1488,22 @@ fn run_lz(c: &Case) -> Obs {
                 // Data::iter: the fields before the first error; Data::get of every tag seen, CG, ZZ
                 let data = rr().data();
                 let mut fs: Vec<([u8; 2], Val)> = Vec::new();
-                let mut err = false;
+                // the io::ErrorKind of the first error Data::iter yields (wave 9: modelled, NV.Bam.LazyErr)
+                let mut err: Option<String> = None;
                 for f in data.iter() {
                     match f {
                         Ok((t, v)) => {
                             let b: &[u8; 2] = t.as_ref();
                             match Value::try_from(v) {
                                 Ok(v) => fs.push((*b, val_from_noodles(&v))),
-                                Err(_) => {
-                                    err = true;
+                                Err(e) => {
+                                    err = Some(format!("conv-{}", nv::errkind(&e)));
                                     break;
                                 }
                             }
                         }
-                        Err(_) => {
-                            err = true;
+                        Err(e) => {
+                            err = Some(nv::errkind(&e));
                             break;
                         }
                     }
@@ -1427,14 +1515,14 @@ fn run_lz(c: &Case) -> Obs {
                     .iter()
                     .map(|t| match data.get(t) {
                         None => "-".to_string(),
-                        Some(Err(_)) => "Err".to_string(),
+                        Some(Err(e)) => format!("Err:{}", nv::errkind(&e)),
                         Some(Ok(v)) => match Value::try_from(v) {
                             Ok(v) => fmt_val(&val_from_noodles(&v)),
-                            Err(_) => "Err".to_string(),
+                            Err(e) => format!("Err:conv-{}", nv::errkind(&e)),
                         },
                     })
                     .collect();
-                format!("{}{} {}", fmt_data(&fs), if err { "!Err" } else { "" }, gets.join(","))
+                format!("{}{} {}", fmt_data(&fs), err.map(|k| format!("!Err:{k}")).unwrap_or_default(), gets.join(","))
             }),
         ),
         (
@@ -1445,11 +1533,11 @@ fn run_lz(c: &Case) -> Obs {
             }),
         ),
         (
-            // RecordBuf::try_from_alignment_record of the lazy record (error kinds not observed)
+            // RecordBuf::try_from_alignment_record of the lazy record, with the kind of its error
             "convert",
             g(|| match RecordBuf::try_from_alignment_record(&sam::Header::default(), &rr()) {
                 Ok(rb) => short_or_digest(from_record_buf(&rb, 0).canon()),
-                Err(_) => "Err".to_string(),
+                Err(e) => format!("Err:{}", nv::errkind(&e)),
             }),
         ),
     ];
@@ -1790,6 +1878,8 @@ fn run(c: &Case) -> Obs {
         "lz" => run_lz(c),
         "rec" => run_rec(c),
         "dec" => run_dec(c),
+        "hb" => run_hb(c),
+        "rwz" => run_rwz(c),
         "tab" => run_tab(c),
         "sub" => run_sub(c),
         "rw" => run_rw(c),
@@ -2667,6 +2757,98 @@ fn generate(rng: &mut Rng, tier: &str, w: &mut CaseWriter) {
     for _ in 0..n_fread {
         gen_fread(rng, w);
     }
+    // direct lazy re-write (wave 9; appended last)
+    let n_rwz = if thorough { 30000 } else { 900 };
+    for i in 0..n_rwz {
+        let body = match i % 6 {
+            0 => Some(gen_lz_cg_body(rng)),
+            1 => Some(gen_dec_cg_body(rng)),
+            2 | 3 => {
+                // an untouched written record
+                let (s, _) = gen_valid(rng);
+                if reject_reason(&s).is_some() {
+                    None
+                } else {
+                    write_raw(&header_with(s.nref), &to_record_buf(&s)).ok().filter(|b| b.len() <= 600).map(|b| b[4..].to_vec())
+                }
+            }
+            _ => gen_dec_body(rng),
+        };
+        if let Some(body) = body {
+            let nref = *rng.pick(&[3usize, 3, 3, 1, 0]);
+            w.push("rwz", vec![nref.to_string(), hex(&body)]);
+        }
+    }
+    for n in if thorough { vec![65535usize, 65536, 65537, 70000] } else { vec![65536] } {
+        let (s, _) = gen_big_cigar(rng, n);
+        if let Ok(b) = write_raw(&header_with(s.nref), &to_record_buf(&s)) {
+            w.push("rwz", vec!["3".to_string(), hex(&b[4..])]);
+        }
+    }
+    // hostile blocks (wave 9; appended last)
+    let n_hb = if thorough { 12000 } else { 400 };
+    for _ in 0..n_hb {
+        gen_hb(rng, w);
+    }
+}
+
+/// `hb`: one whole block (block_size + body) with a hostile count: l_seq / n_cigar_op / l_read_name /
+/// block_size / an array count far beyond the bytes present, or a cut.  Model: NV.Bam.Decode.decode
+/// (its counts are binary numbers, never converted to unary: no fuel or stack depends on them).
+fn gen_hb(rng: &mut Rng, w: &mut CaseWriter) {
+    let body = loop {
+        let (s, _) = gen_valid(rng);
+        if reject_reason(&s).is_some() {
+            continue;
+        }
+        let header = header_with(s.nref);
+        if let Ok(block) = write_raw(&header, &to_record_buf(&s)) {
+            if block.len() <= 600 {
+                break block[4..].to_vec();
+            }
+        }
+    };
+    let mut body = body;
+    let mut bsize = body.len() as u32;
+    let huge = |rng: &mut Rng| -> u32 { *rng.pick(&[0xffff_ffffu32, 0x7fff_ffff, 0x8000_0000, 0x4000_0000, 0x0100_0000, 0x0001_0000]) };
+    match rng.below(9) {
+        0 => {
+            let v = huge(rng);
+            body[16..20].copy_from_slice(&v.to_le_bytes());
+        }
+        1 => {
+            let v = *rng.pick(&[0xffffu16, 0x8000, 0x7fff, 0x4000]);
+            body[12..14].copy_from_slice(&v.to_le_bytes());
+        }
+        2 => body[8] = *rng.pick(&[0u8, 255, 254, 128]),
+        3 => bsize = huge(rng),
+        4 => bsize = (bsize as i64 + *rng.pick(&[-33i64, -5, -1, 1, 2, 40])).max(1) as u32,
+        5 | 6 => {
+            // an array field whose count promises far more than is there
+            let sub = *rng.pick(b"cCsSiIfx");
+            let cnt = huge(rng);
+            body.extend_from_slice(b"XB");
+            body.push(b'B');
+            body.push(sub);
+            body.extend_from_slice(&cnt.to_le_bytes());
+            let k = rng.below(9) as usize;
+            body.extend(rng.bytes(k));
+            bsize = body.len() as u32;
+        }
+        7 => {
+            // all three counts at their maximum
+            body[8] = 255;
+            body[12..14].copy_from_slice(&0xffffu16.to_le_bytes());
+            body[16..20].copy_from_slice(&0xffff_ffffu32.to_le_bytes());
+        }
+        _ => {
+            let n = rng.below(body.len() as u64) as usize;
+            body.truncate(n);
+        }
+    }
+    let mut block = bsize.to_le_bytes().to_vec();
+    block.extend_from_slice(&body);
+    w.push("hb", vec![hex(&block)]);
 }
 
 fn main() {
